@@ -481,6 +481,43 @@ class _AliasSubst(ast.NodeTransformer):
     return n
 
 
+def _stores_after_uses(fn, definition, name, parts):
+  """True if every store to one of the attributes `parts` comes, in source
+  order, after the last read of the alias `name`, the alias is defined before
+  its first read, and its definition is not inside a loop that contains such
+  a store (`o = self._last; if not o.done: self._last = new`)."""
+  order = {}
+  counter = [0]
+
+  def number(node):
+    order[id(node)] = counter[0]
+    counter[0] += 1
+    for c in ast.iter_child_nodes(node):
+      number(c)
+  number(fn)
+  loads = [order[id(x)] for x in ast.walk(fn)
+           if isinstance(x, ast.Name) and x.id == name and
+           isinstance(x.ctx, ast.Load)]
+  stores = [x for x in ast.walk(fn) if isinstance(x, ast.Attribute) and
+            isinstance(x.ctx, (ast.Store, ast.Del)) and x.attr in parts]
+  if not loads or not stores:
+    return False
+  # the assignment statement holding the store, numbered at its start
+  if min(order[id(x)] for x in stores) <= max(loads):
+    return False
+  if min(loads) <= order[id(definition)]:
+    return False
+  for lp in ast.walk(fn):
+    if isinstance(lp, (ast.For, ast.While, ast.AsyncFor)):
+      inside = {id(x) for x in ast.walk(lp)}
+      if id(definition) in inside and any(id(x) in inside for x in stores):
+        return False
+  # calls between the definition and the last read could rebind the
+  # attribute behind our back only through self-methods; accept reads that
+  # are not separated from the definition by a call on the same root
+  return True
+
+
 def _propagate_aliases(fn):
   loads, stores = _name_uses(fn)
   attr_stores = set()
@@ -521,14 +558,22 @@ def _propagate_aliases(fn):
         aliases[t] = n.value
         owners.append(n)
         continue
+      if isinstance(n.value, ast.Name) and once and \
+          n.value.id not in params and stores.get(n.value.id, 0) == 1 and \
+          loads.get(t, 0) >= 1 and n.value.id != t:
+        # a second name for a local that is itself bound once
+        aliases[t] = n.value
+        owners.append(n)
+        continue
       ch = _chain(n.value)
       if ch is None or t in params or stores.get(t, 0) != 1 or \
-          loads.get(t, 0) < 2:
-        continue  # single loads are C6's business
+          loads.get(t, 0) < 1:
+        continue
       root, parts = ch
       if stores.get(root, 0) > 1:
         continue  # the root is rebound: t may be a snapshot
-      if any(p in attr_stores for p in parts):
+      if any(p in attr_stores for p in parts) and not _stores_after_uses(
+          fn, n, t, parts):
         continue
       aliases[t] = n.value
       owners.append(n)
@@ -665,9 +710,15 @@ def _split_tuple_assignments(fn):
         if isinstance(st, ast.Assign) and len(st.targets) == 1 and isinstance(
             st.targets[0], ast.Tuple) and isinstance(st.value, ast.Tuple) and \
             len(st.targets[0].elts) == len(st.value.elts) and all(
-                isinstance(t, ast.Name) for t in st.targets[0].elts) and not \
+                isinstance(t, ast.Name) for t in st.targets[0].elts[:-1]) and \
+            (isinstance(st.targets[0].elts[-1], ast.Name) or
+             # an attribute may be the last target: nothing is evaluated
+             # after it is stored
+             (isinstance(st.targets[0].elts[-1], ast.Attribute) and
+              _chain(st.targets[0].elts[-1]) is not None)) and not \
             any(isinstance(v, ast.Starred) for v in st.value.elts):
-          names = [t.id for t in st.targets[0].elts]
+          names = [t.id if isinstance(t, ast.Name) else '.' + t.attr
+                   for t in st.targets[0].elts]
           ok = len(set(names)) == len(names)
           for j, v in enumerate(st.value.elts):
             reads = {x.id for x in ast.walk(v) if isinstance(x, ast.Name)}
@@ -766,6 +817,68 @@ def _push_unpack_to_defs(fn):
   return False
 
 
+def _beta_reduce_lambdas(fn):
+  """C21: `f = lambda x: E` (f bound once, only ever called, with plain
+  arguments) -> every `f(a)` reads as E[x := a]."""
+  loads, stores = _name_uses(fn)
+  for parent in ast.walk(fn):
+    for blk in _canon_blocks(parent):
+      for st in list(blk):
+        if not (isinstance(st, ast.Assign) and len(st.targets) == 1 and
+                isinstance(st.targets[0], ast.Name) and
+                isinstance(st.value, ast.Lambda)):
+          continue
+        name, lam = st.targets[0].id, st.value
+        a = lam.args
+        if stores.get(name, 0) != 1 or a.vararg or a.kwarg or a.kwonlyargs \
+            or a.defaults or a.posonlyargs:
+          continue
+        params = [x.arg for x in a.args]
+        calls = [n for n in ast.walk(fn) if isinstance(n, ast.Call) and
+                 isinstance(n.func, ast.Name) and n.func.id == name]
+        if len(calls) != loads.get(name, 0) or not calls:
+          continue  # also passed around as a value
+        if any(c.keywords or len(c.args) != len(params) or not all(
+            isinstance(x, (ast.Name, ast.Constant)) or _chain(x) is not None
+            for x in c.args) for c in calls):
+          continue
+        if any(isinstance(x, (ast.Lambda, ast.Yield, ast.Await, ast.NamedExpr))
+               for x in ast.walk(lam.body)):
+          continue
+        ids = {id(c) for c in calls}
+
+        class _T(ast.NodeTransformer):
+
+          def visit_Call(self, n):
+            self.generic_visit(n)
+            if id(n) in ids:
+              sub = _AliasSubst(dict(zip(params, n.args)))
+              return ast.copy_location(sub.visit(copy.deepcopy(lam.body)), n)
+            return n
+        for b2 in ast.walk(fn):
+          for blk2 in _canon_blocks(b2):
+            for k, s2 in enumerate(blk2):
+              if s2 is not st:
+                blk2[k] = _T().visit(s2)
+        blk.remove(st)
+        if not blk:
+          blk.append(ast.copy_location(ast.Pass(), st))
+        return True
+  return False
+
+
+def _merge_nested_try(fn):
+  """C20: `try: (try: A except E: H) finally: F` is `try: A except E: H
+  finally: F` (the outer try has no handlers / else of its own and its body
+  is exactly the inner try, which has no finally)."""
+  for n in ast.walk(fn):
+    if isinstance(n, ast.Try) and n.finalbody and not n.handlers and \
+        not n.orelse and len(n.body) == 1 and isinstance(n.body[0], ast.Try) \
+        and not n.body[0].finalbody:
+      inner = n.body[0]
+      n.body, n.handlers, n.orelse = inner.body, inner.handlers, inner.orelse
+
+
 def _strip_bool(e):
   """C15: `bool(X)` in a truth-test position is X."""
   if isinstance(e, ast.Call) and isinstance(e.func, ast.Name) and \
@@ -785,14 +898,21 @@ def _strip_bool_in_tests(fn):
       n.test = _strip_bool(n.test)
 
 
-def _canon_function(fn):
+def _canon_function(fn, tuple_types=None):
   # two rounds: folding a temporary (C1/C6) can expose a shape of the first
   # group (`r = any(...); return r`)
   for _ in range(2):
     _canon_function_once(fn)
+    _project_tuple_fields(fn, tuple_types)
+  if tuple_types:
+    _canon_function_once(fn)
 
 
 def _canon_function_once(fn):
+  for _ in range(3):
+    if not _beta_reduce_lambdas(fn):
+      break
+  _merge_nested_try(fn)
   _strip_bool_in_tests(fn)
   for _ in range(4):
     if not _push_unpack_to_defs(fn):
@@ -951,7 +1071,21 @@ def _string_literal(e):
   return False
 
 
-def _propagate_module_constants(tree):
+def _number_literal(e):
+  """An int / float constant other than the flag values 0, 1, True, False
+  (also negated, also a tuple of such)."""
+  if isinstance(e, ast.UnaryOp) and isinstance(e.op, ast.USub):
+    e = e.operand
+  if isinstance(e, ast.Constant):
+    return isinstance(e.value, (int, float)) and not isinstance(
+        e.value, bool) and e.value not in (0, 1)
+  return False
+
+
+def _propagate_module_constants(tree, known=None):
+  """`known`: constant names of this module in the reference tree (the rules
+  may read those by name); a numeric constant is replaced by its value only
+  when it is a new name (a magic number hoisted by a clean-up)."""
   consts = {}
   counts = {}
   for st in tree.body:
@@ -961,6 +1095,9 @@ def _propagate_module_constants(tree):
       nm = st.targets[0].id
       if nm.strip('_').isupper() and nm.strip('_') and _string_literal(
           st.value):
+        consts[nm] = st.value
+      elif nm.strip('_').isupper() and nm.strip('_') and known is not None \
+          and nm not in known and _number_literal(st.value):
         consts[nm] = st.value
   for n in ast.walk(tree):
     if isinstance(n, ast.Name) and isinstance(n.ctx, (ast.Store, ast.Del)) and \
@@ -1007,8 +1144,284 @@ def _propagate_module_constants(tree):
       subst(st, set())
 
 
-def canonicalise(tree):
-  _propagate_module_constants(tree)
+def _fold_struct_objects(tree):
+  """C16: a module- or class-level `N = struct.Struct(F)` used as
+  `N.pack(...)`, `N.unpack(b)`, `N.size` reads as `struct.pack(F, ...)`,
+  `struct.unpack(F, b)`, `struct.calcsize(F)`."""
+  consts = {}
+  holders = [tree] + [c for c in tree.body if isinstance(c, ast.ClassDef)]
+  for h in holders:
+    for st in h.body:
+      if isinstance(st, ast.Assign) and len(st.targets) == 1 and isinstance(
+          st.targets[0], ast.Name) and isinstance(st.value, ast.Call) and \
+          dotted(st.value.func) == 'struct.Struct' and \
+          len(st.value.args) == 1 and not st.value.keywords and isinstance(
+              st.value.args[0], (ast.Constant, ast.Name)):
+        consts[st.targets[0].id] = (st, h, st.value.args[0])
+  if not consts:
+    return
+  for n in ast.walk(tree):
+    name = None
+    if isinstance(n, ast.Name) and isinstance(n.ctx, (ast.Store, ast.Del)):
+      name = n.id
+    elif isinstance(n, ast.Attribute) and isinstance(n.ctx, (ast.Store,
+                                                              ast.Del)):
+      name = n.attr
+    if name in consts and n is not consts[name][0].targets[0]:
+      del consts[name]  # rebound somewhere: not a constant
+  if not consts:
+    return
+
+  def ref(e):
+    """(N, prefix) if e refers to a struct constant."""
+    if isinstance(e, ast.Name) and e.id in consts and isinstance(
+        consts[e.id][1], ast.Module):
+      return e.id, None
+    if isinstance(e, ast.Attribute) and e.attr in consts and isinstance(
+        consts[e.attr][1], ast.ClassDef):
+      return e.attr, e.value
+    return None
+
+  def fmt(r, at):
+    name, prefix = r
+    f = consts[name][2]
+    if isinstance(f, ast.Constant) or prefix is None:
+      new = ast.Constant(value=f.value) if isinstance(f, ast.Constant) else \
+          ast.Name(id=f.id, ctx=ast.Load())
+    else:
+      new = ast.Attribute(value=prefix, attr=f.id, ctx=ast.Load())
+    return ast.copy_location(new, at)
+
+  def sfunc(attr, at):
+    return ast.copy_location(ast.Attribute(
+        value=ast.copy_location(ast.Name(id='struct', ctx=ast.Load()), at),
+        attr=attr, ctx=ast.Load()), at)
+
+  class _T(ast.NodeTransformer):
+
+    def visit_Call(self, n):
+      if isinstance(n.func, ast.Attribute) and n.func.attr in (
+          'pack', 'unpack') and ref(n.func.value) is not None:
+        r = ref(n.func.value)
+        args = [self.visit(a) for a in n.args]
+        return ast.copy_location(ast.Call(
+            func=sfunc(n.func.attr, n), args=[fmt(r, n)] + args,
+            keywords=n.keywords), n)
+      self.generic_visit(n)
+      return n
+
+    def visit_Attribute(self, n):
+      if n.attr == 'size' and isinstance(n.ctx, ast.Load) and \
+          ref(n.value) is not None:
+        return ast.copy_location(ast.Call(
+            func=sfunc('calcsize', n), args=[fmt(ref(n.value), n)],
+            keywords=[]), n)
+      self.generic_visit(n)
+      return n
+  _T().visit(tree)
+  left = set()
+  for n in ast.walk(tree):
+    if isinstance(n, ast.Name) and isinstance(n.ctx, ast.Load):
+      left.add(n.id)
+    elif isinstance(n, ast.Attribute) and isinstance(n.ctx, ast.Load):
+      left.add(n.attr)
+  for name, (st, h, _) in consts.items():
+    if name not in left and not name.startswith('__'):
+      h.body.remove(st)
+
+
+def _namedtuple_types(tree):
+  """{class name: [field names]} for the module's collections.namedtuple
+  types (assigned, or used as the single base of a class that does not
+  redefine a field)."""
+  def fields_of(call):
+    if not (isinstance(call, ast.Call) and (dotted(call.func) or '').endswith(
+        'namedtuple') and len(call.args) >= 2):
+      return None
+    f = call.args[1]
+    if isinstance(f, ast.Constant) and isinstance(f.value, str):
+      return f.value.replace(',', ' ').split()
+    if isinstance(f, (ast.List, ast.Tuple)) and all(
+        isinstance(e, ast.Constant) and isinstance(e.value, str)
+        for e in f.elts):
+      return [e.value for e in f.elts]
+    return None
+  out = {}
+  for st in tree.body:
+    if isinstance(st, ast.Assign) and len(st.targets) == 1 and isinstance(
+        st.targets[0], ast.Name):
+      f = fields_of(st.value)
+      if f:
+        out[st.targets[0].id] = f
+    elif isinstance(st, ast.ClassDef) and len(st.bases) == 1:
+      f = fields_of(st.bases[0])
+      if f:
+        own = {m.name for m in st.body if isinstance(m, ast.FunctionDef)} | {
+            t.id for m in st.body if isinstance(m, ast.Assign)
+            for t in m.targets if isinstance(t, ast.Name)}
+        if not (own & (set(f) | {'__new__', '__init__', '__getattr__',
+                                 '__getattribute__'})):
+          out[st.name] = f
+  return out
+
+
+def _project_tuple_fields(fn, types):
+  """C17: `p = T(a, b)` (T a namedtuple type of the module, a / b plain
+  locals defined earlier in the same block and nowhere else, p bound only
+  here and read only later in this block) -> `p.x` reads as `a`."""
+  if not types:
+    return
+  loads, stores = _name_uses(fn)
+  for parent in ast.walk(fn):
+    for blk in _canon_blocks(parent):
+      for j, st in enumerate(blk):
+        if not (isinstance(st, ast.Assign) and len(st.targets) == 1 and
+                isinstance(st.targets[0], ast.Name) and
+                isinstance(st.value, ast.Call) and
+                isinstance(st.value.func, ast.Name) and
+                st.value.func.id in types and not st.value.keywords):
+          continue
+        p = st.targets[0].id
+        fields = types[st.value.func.id]
+        args = st.value.args
+        if stores.get(p, 0) != 1 or len(args) != len(fields):
+          continue
+        # the arguments are plain locals (or constant slices of them) defined
+        # once, by earlier statements of this block
+        defined = set()
+        for b in blk[:j]:
+          if isinstance(b, ast.Assign) and len(b.targets) == 1 and isinstance(
+              b.targets[0], ast.Name):
+            defined.add(b.targets[0].id)
+
+        def stable(a):
+          if isinstance(a, ast.Constant):
+            return True
+          if isinstance(a, ast.Name):
+            return stores.get(a.id, 0) == 1 and a.id in defined
+          if isinstance(a, ast.Subscript) and isinstance(a.value, ast.Name):
+            sl = a.slice
+            parts = [sl.lower, sl.upper, sl.step] if isinstance(
+                sl, ast.Slice) else [sl]
+            return stable(a.value) and all(
+                x is None or isinstance(x, ast.Constant) for x in parts)
+          return False
+        if not all(stable(a) for a in args):
+          continue
+        later = sum(1 for b in blk[j + 1:] for n in ast.walk(b)
+                    if isinstance(n, ast.Name) and n.id == p)
+        if later != loads.get(p, 0):
+          continue  # read somewhere else (e.g. before, in a loop)
+        mapping = dict(zip(fields, args))
+
+        class _T(ast.NodeTransformer):
+
+          def visit_Attribute(self, n):
+            if isinstance(n.value, ast.Name) and n.value.id == p and \
+                isinstance(n.ctx, ast.Load) and n.attr in mapping:
+              import copy  # pylint: disable=g-import-not-at-top
+              return ast.copy_location(copy.deepcopy(mapping[n.attr]), n)
+            self.generic_visit(n)
+            return n
+        for k in range(j + 1, len(blk)):
+          blk[k] = _T().visit(blk[k])
+
+
+def _keywords_to_positional(tree):
+  """C18: `self.m(a, b, flag=True)` -> `self.m(a, b, True)` when m is a
+  method of the enclosing class and the keywords continue its positional
+  parameters without a gap (module functions keep their keywords: the rules
+  read those by name)."""
+
+  def params_of(fn, bound):
+    a = fn.args
+    if a.vararg or a.posonlyargs:
+      return None
+    names = [x.arg for x in a.args]
+    kinds = [dotted(d) for d in fn.decorator_list]
+    if bound and 'staticmethod' not in kinds:
+      names = names[1:]
+    if any(k not in ('staticmethod', 'classmethod', None) and
+           k is not None and k not in ('staticmethod', 'classmethod')
+           for k in kinds):
+      return None
+    return names
+
+  def fix(call, names):
+    if names is None or not call.keywords or any(
+        k.arg is None for k in call.keywords) or any(
+            isinstance(a, ast.Starred) for a in call.args):
+      return
+    pos = list(call.args)
+    kws = {k.arg: k.value for k in call.keywords}
+    moved = 0
+    while len(pos) < len(names) and names[len(pos)] in kws:
+      pos.append(kws.pop(names[len(pos)]))
+      moved += 1
+    if moved and len(kws) + moved == len(call.keywords):
+      # keyword values are evaluated left to right after the positionals:
+      # only reorder when they were already in parameter order
+      order = [k.arg for k in call.keywords if k.arg not in kws]
+      if order == names[len(call.args):len(call.args) + moved]:
+        call.args = pos
+        call.keywords = [k for k in call.keywords if k.arg in kws]
+
+  def walk_scope(node, methods):
+    for n in ast.walk(node):
+      if not isinstance(n, ast.Call):
+        continue
+      f = n.func
+      if isinstance(f, ast.Attribute) and isinstance(f.value, ast.Name) and \
+          f.value.id in ('self', 'cls') and methods.get(f.attr) is not None:
+        fix(n, params_of(methods[f.attr], True))
+  for st in tree.body:
+    if isinstance(st, ast.ClassDef):
+      methods = {}
+      for m in st.body:
+        if isinstance(m, ast.FunctionDef):
+          methods[m.name] = None if m.name in methods else m
+      walk_scope(st, methods)
+    else:
+      walk_scope(st, {})
+
+
+def _enum_identity_to_equality(tree):
+  """C19: `x is Enum.MEMBER` / `is not` -> `==` / `!=` (identity and equality
+  coincide for enum members; spelled `<Name>.<UPPER_CASE>` at the end of an
+  attribute chain)."""
+  for n in ast.walk(tree):
+    if isinstance(n, ast.Compare) and len(n.ops) == 1 and isinstance(
+        n.ops[0], (ast.Is, ast.IsNot)):
+      for side in (n.left, n.comparators[0]):
+        if isinstance(side, ast.Attribute) and side.attr.isupper() and \
+            len(side.attr) > 1:
+          owner = side.value
+          oname = owner.attr if isinstance(owner, ast.Attribute) else (
+              owner.id if isinstance(owner, ast.Name) else '')
+          if oname.lstrip('_')[:1].isupper() and not oname.isupper():
+            n.ops[0] = ast.Eq() if isinstance(n.ops[0], ast.Is) else \
+                ast.NotEq()
+            break
+
+
+def canonicalise(tree, known_constants=None):
+  _keywords_to_positional(tree)
+  _enum_identity_to_equality(tree)
+  _fold_struct_objects(tree)
+  _propagate_module_constants(tree, known_constants)
+  for n in ast.walk(tree):  # f(*(a, b)) is f(a, b)
+    if isinstance(n, ast.Call) and any(
+        isinstance(x, ast.Starred) and isinstance(x.value, (ast.Tuple,
+                                                            ast.List))
+        for x in n.args):
+      flat = []
+      for x in n.args:
+        if isinstance(x, ast.Starred) and isinstance(x.value, (ast.Tuple,
+                                                               ast.List)):
+          flat.extend(x.value.elts)
+        else:
+          flat.append(x)
+      n.args = flat
   _fold_getattr(tree)
   for c in ast.walk(tree):
     if isinstance(c, ast.ClassDef):
@@ -1025,9 +1438,10 @@ def canonicalise(tree):
     if isinstance(n, (ast.FunctionDef, ast.AsyncFunctionDef)):
       _unroll_table_loops(n, {})
   _fold_getattr(tree)
+  nt = _namedtuple_types(tree)
   for n in ast.walk(tree):
     if isinstance(n, (ast.FunctionDef, ast.AsyncFunctionDef)):
-      _canon_function(n)
+      _canon_function(n, nt)
     elif isinstance(n, ast.Compare) and len(n.ops) == 1 and isinstance(
         n.ops[0], (ast.Lt, ast.LtE)):
       n.left, n.comparators[0] = n.comparators[0], n.left
@@ -1065,7 +1479,10 @@ class Module(object):
       from sa import inline  # pylint: disable=g-import-not-at-top
       self.inline_log = inline.inline_module(
           self.tree, relpath, anchors, foreign_text or (lambda name: False))
-    canonicalise(self.tree)
+    from sa import renames  # pylint: disable=g-import-not-at-top
+    ref_consts = renames.load_reference().get('constants')
+    canonicalise(self.tree, None if ref_consts is None else set(
+        ref_consts.get(relpath, ())))
     self.funcs = {}  # qualname -> [FuncInfo]  (property getter/setter share)
     self.classes = {}  # qualname -> ClassDef
     self.imports = {}  # alias -> dotted module/symbol
